@@ -613,6 +613,40 @@ def run(rep: Report, repo: Repo, tier: str) -> None:
     with rep.isolated():
         misc_rules.rule_no_finally_discard(rep, repo, "C06-R10")
 
+    # ---- R13: the processing functions run in the caller's own call stack
+    with rep.isolated():
+        rule_direct_calls(rep, repo, "C06-R13")
+
+
+def rule_direct_calls(rep: Report, repo: Repo, rule: str) -> None:
+    """document(), document_single_file() and <Documenter>.process are only ever *called*: handing one of them to a pool, a
+    thread, an executor or a callback slot (apply_async, submit, map, Thread(target=...), atexit ...) moves the parse into a
+    context whose exceptions the caller does not see unless it fetches every result - the error of a faulty file is lost and the
+    exit status stays 0."""
+    rep.rule(rule, "document, document_single_file and Documenter.process are never used as values (pool / thread / callback "
+                   "targets): every use is a direct call whose exception propagates to main()")
+    names = {"document", "document_single_file"}
+    n = 0
+    for mod in ("cminx", "cminx.documenter"):
+        mm = repo.module(mod)
+        for node in ast.walk(mm.tree):
+            hit = None
+            if isinstance(node, ast.Name) and node.id in names and isinstance(node.ctx, ast.Load):
+                hit = node.id
+            elif isinstance(node, ast.Attribute) and node.attr == "process" and isinstance(node.ctx, ast.Load) \
+                    and not (isinstance(node.value, ast.Name) and node.value.id in ("self", "cls")):
+                hit = norm(node)
+            if hit is None:
+                continue
+            par = mm.parents.get(node)
+            direct = isinstance(par, ast.Call) and par.func is node
+            n += 1
+            rep.check(direct, rule, f"{mod}", f"{hit} in `{norm(par)[:60] if par is not None else ''}`",
+                      f"`{hit}` is passed on as a value instead of being called: it runs in a worker / callback whose exception does not "
+                      f"reach main(), so a syntax error in a file is not reported and the exit status is 0",
+                      witness="directory with one faulty file, processed through the pool")
+    rep.floor(rule, 3, "uses of the processing functions")
+
 
 def _at_module_level(n, mm) -> bool:
     p = mm.parents.get(n)
